@@ -2,8 +2,19 @@
 //!
 //! Consecutive cases share one input and run it under the rayon pools
 //! 1,2,3,4,8,16 (quick) / 1..16 (thorough) (the median search reads
-//! `rayon::current_num_threads()`); the
-//! Coq side runs the model with the same T and compares the ids exactly.
+//! `rayon::current_num_threads()`).
+//!
+//! Three kinds of input:
+//!  * i64 weights (exact stream): the Coq side runs the model with the same T
+//!    and compares the ids exactly; checker with the "+1 unit" clause;
+//!  * f64 weights that are multiples of 2^-k (exact stream: every sum the code
+//!    forms is exact whatever rayon's association): weights are written as the
+//!    integers z with the scale k; model compared exactly; checker with the
+//!    f64 clause (no unit slack);
+//!  * arbitrary f64 fractions (checker-only stream): the code's sums are rounded
+//!    and their association depends on the pool, so there is no model run; every
+//!    f64 is still z * 2^-k exactly, and the checker judges the ids against
+//!    these exact weights (no unit slack, relative allowance 2^-30).
 use std::num::NonZeroUsize;
 use std::time::Duration;
 use verif_harness::*;
@@ -12,12 +23,18 @@ const POOLS_QUICK: [usize; 6] = [1, 2, 3, 4, 8, 16];
 const POOLS_THOROUGH: [usize; 16] = [1, 2, 3, 4, 5, 6, 7, 8, 9, 10, 11, 12, 13, 14, 15, 16];
 
 #[derive(Clone)]
+enum Weights {
+    I64(Vec<i64>),
+    /// the f64 values handed to the implementation; `z[i] * 2^-k == f[i]` exactly
+    F64 { f: Vec<f64>, z: Vec<i128>, k: u32, exact: bool },
+}
+
+#[derive(Clone)]
 struct Input {
     fam: String,
     dims: Vec<usize>,
-    ws: Vec<i64>,
+    w: Weights,
     k: usize,
-    fw: bool,
 }
 
 fn gen_dims(r: &mut Rng, big: bool) -> Vec<usize> {
@@ -40,7 +57,7 @@ fn gen_dims(r: &mut Rng, big: bool) -> Vec<usize> {
                 ],
             }
         } else {
-            match r.below(8) {
+            match r.below(10) {
                 0 => vec![1, r.range(1, 12) as usize],
                 1 => vec![r.range(1, 12) as usize, 1],
                 2 => {
@@ -48,6 +65,16 @@ fn gen_dims(r: &mut Rng, big: bool) -> Vec<usize> {
                     vec![s, s]
                 }
                 3 => vec![r.range(1, 3) as usize, r.range(1, 3) as usize],
+                // long thin grids (3 x 100, 4 x 64, 8 x 48, ...): coarse chunks at small pools
+                4 | 5 => {
+                    let a = r.range(1, 8) as usize;
+                    let b = r.range(13, 100) as usize;
+                    if r.chance(1, 2) {
+                        vec![a, b]
+                    } else {
+                        vec![b, a]
+                    }
+                }
                 _ => vec![r.range(1, 12) as usize, r.range(1, 12) as usize],
             }
         };
@@ -57,25 +84,19 @@ fn gen_dims(r: &mut Rng, big: bool) -> Vec<usize> {
     }
 }
 
-fn gen_input(r: &mut Rng, tier: &str) -> Input {
-    let big = tier == "thorough";
-    let dims = gen_dims(r, big);
-    let n: usize = dims.iter().product();
-    let fam = r.below(11);
-    let (name, ws): (&str, Vec<i64>) = match fam {
+/// the integer families (also used, as f64 holding integers, with scale 0)
+fn gen_int_weights(r: &mut Rng, n: usize, allow_giant: bool) -> (&'static str, Vec<i64>) {
+    let fam = r.below(if allow_giant { 11 } else { 10 });
+    match fam {
         0 => {
             let v = *r.pick(&[1i64, 1, 2, 7, 100]);
             ("uniform", vec![v; n])
         }
         1 => {
-            // sparse: most cells are empty
             let den = *r.pick(&[4u64, 8, 16]);
             ("sparse", (0..n).map(|_| if r.chance(1, den) { r.range(1, 50) } else { 0 }).collect())
         }
-        2 => {
-            // skewed: a few heavy cells among light ones
-            ("skewed", (0..n).map(|_| if r.chance(1, 10) { r.range(100, 5000) } else { r.range(0, 3) }).collect())
-        }
+        2 => ("skewed", (0..n).map(|_| if r.chance(1, 10) { r.range(100, 5000) } else { r.range(0, 3) }).collect()),
         3 => ("all_zero", vec![0; n]),
         4 => {
             let mut ws: Vec<i64> = (0..n).map(|_| r.range(0, 2)).collect();
@@ -85,30 +106,192 @@ fn gen_input(r: &mut Rng, tier: &str) -> Input {
         }
         5 => ("random", (0..n).map(|_| r.range(0, 100)).collect()),
         6 => {
-            // gradient along the memory order (heavy end / light end)
             let up = r.chance(1, 2);
             ("gradient", (0..n).map(|i| if up { i as i64 } else { (n - i) as i64 * 3 }).collect())
         }
         7 => {
-            // two clusters at the two ends of the memory order, nothing between
             let a = (n / 5).max(1);
             ("two_clusters", (0..n).map(|i| if i < a || i + a >= n { r.range(1, 20) } else { 0 }).collect())
         }
-        8 => {
-            // large values (total below 2^46: inside the range of theorem C10_thresholds)
-            ("large_values", (0..n).map(|_| r.range(0, 1 << 35)).collect())
+        8 => ("large_values", (0..n).map(|_| r.range(0, 1 << 35)).collect()),
+        9 => {
+            // total between 2^46 and 2^52: beyond the i64 balance theorem (correspondence only
+            // for i64; inside the f64 theorem, whose range is 2^53)
+            let per = ((1u64 << 52) / n as u64) as i64;
+            ("huge_values", (0..n).map(|_| r.range(per / 2, per - 1)).collect())
         }
-        10 => {
-            // giant i64 values: the total (up to 2^61) is not exactly representable in f64, the
-            // thresholds come from the ROUNDED total (`as f64`); correspondence only, i64 only
+        _ => {
+            // the total (up to 2^61) is not exactly representable in f64: thresholds from the
+            // ROUNDED total; correspondence only, i64 only
             let per = ((1u64 << 61) / n as u64) as i64;
             ("giant_i64", (0..n).map(|_| r.range(per / 3, per - 1)).collect())
         }
+    }
+}
+
+/// f64 weights that are multiples of 2^-k: (family, z, k)
+fn gen_dyadic(r: &mut Rng, n: usize) -> (&'static str, Vec<i128>, u32) {
+    match r.below(7) {
+        0 => {
+            // uniform in [0,1) on a grid of 2^-k
+            let k = *r.pick(&[8u32, 16, 24, 30]);
+            ("frac_unit", (0..n).map(|_| r.below(1u64 << k) as i128).collect(), k)
+        }
+        1 | 2 => {
+            // normalised: the weights sum to exactly 1.0
+            let k = *r.pick(&[10u32, 16, 20, 30]);
+            let total: u64 = 1u64 << k;
+            let mut raw: Vec<u64> = (0..n).map(|_| if r.chance(1, 6) { 0 } else { 1 + r.below(1000) }).collect();
+            if r.chance(1, 3) {
+                // skewed loads
+                for x in raw.iter_mut() {
+                    if r.chance(1, 10) {
+                        *x *= 50;
+                    }
+                }
+            }
+            let s: u64 = raw.iter().sum::<u64>().max(1);
+            let mut z: Vec<u64> = raw.iter().map(|x| (*x as u128 * total as u128 / s as u128) as u64).collect();
+            let have: u64 = z.iter().sum();
+            let i = r.below(n as u64) as usize;
+            z[i] += total - have; // exact sum 2^k
+            ("frac_norm1", z.into_iter().map(|x| x as i128).collect(), k)
+        }
+        3 => {
+            // tiny loads around 1e-6
+            let k = 40u32;
+            ("frac_tiny", (0..n).map(|_| r.range(1 << 19, 1 << 21) as i128).collect(), k)
+        }
+        4 => {
+            // mixed magnitudes: 2^-45 .. 2^-5
+            let k = 45u32;
+            (
+                "frac_mixed",
+                (0..n).map(|_| if r.chance(1, 8) { 0 } else { (r.range(1, 15) as i128) << r.below(37) }).collect(),
+                k,
+            )
+        }
+        5 => {
+            // sparse fractions
+            let k = 12u32;
+            ("frac_sparse", (0..n).map(|_| if r.chance(1, 8) { r.below(1 << 12) as i128 } else { 0 }).collect(), k)
+        }
         _ => {
-            // huge values: total between 2^46 and 2^52 -- outside the proved range of the
-            // threshold facts, run for the model/implementation correspondence only
-            let per = ((1u64 << 52) / n as u64) as i64;
-            ("huge_values", (0..n).map(|_| r.range(per / 2, per - 1)).collect())
+            // all equal to 2^-j: sums to a small total such as n/1024
+            let k = *r.pick(&[3u32, 7, 10]);
+            ("frac_equal", vec![1i128; n], k)
+        }
+    }
+}
+
+/// exact decomposition of finite non-negative f64 values: f[i] = z[i] * 2^-k
+fn decompose(f: &[f64]) -> (Vec<i128>, u32) {
+    let parts: Vec<(u64, i32)> = f
+        .iter()
+        .map(|x| {
+            let b = x.to_bits();
+            let e = ((b >> 52) & 0x7ff) as i32;
+            let m = b & ((1u64 << 52) - 1);
+            if e == 0 {
+                (m, -1074)
+            } else {
+                (m | (1u64 << 52), e - 1075)
+            }
+        })
+        .collect();
+    let emin = parts.iter().filter(|(m, _)| *m != 0).map(|(_, e)| *e).min().unwrap_or(0).min(0);
+    let k = (-emin) as u32;
+    let z = parts
+        .iter()
+        .map(|(m, e)| {
+            if *m == 0 {
+                0
+            } else {
+                let sh = (*e + k as i32) as u32;
+                assert!(sh <= 70);
+                (*m as i128) << sh
+            }
+        })
+        .collect();
+    (z, k)
+}
+
+/// arbitrary f64 fractions (full 53-bit mantissas)
+fn gen_arbitrary(r: &mut Rng, n: usize) -> (&'static str, Vec<f64>) {
+    let unit = |r: &mut Rng| -> f64 {
+        let x = (r.next() >> 11) as f64 / (1u64 << 53) as f64;
+        if x < 1e-9 {
+            0.0
+        } else {
+            x
+        }
+    };
+    match r.below(4) {
+        0 => ("arb_unit", (0..n).map(|_| unit(r)).collect()),
+        1 => {
+            let mut v: Vec<f64> = (0..n).map(|_| if r.chance(1, 6) { 0.0 } else { unit(r) }).collect();
+            if r.chance(1, 3) {
+                for x in v.iter_mut() {
+                    if r.chance(1, 10) {
+                        *x *= 37.0;
+                    }
+                }
+            }
+            let s: f64 = v.iter().sum();
+            if s > 0.0 {
+                for x in v.iter_mut() {
+                    *x /= s;
+                    if *x < 1e-12 {
+                        *x = 0.0;
+                    }
+                }
+            }
+            ("arb_norm1", v)
+        }
+        2 => ("arb_tiny", (0..n).map(|_| unit(r) * 1e-6).map(|x| if x < 1e-15 { 0.0 } else { x }).collect()),
+        _ => (
+            "arb_mixed",
+            (0..n)
+                .map(|_| {
+                    let x = unit(r) * 10f64.powi(-(r.below(9) as i32));
+                    if x < 1e-12 {
+                        0.0
+                    } else {
+                        x
+                    }
+                })
+                .collect(),
+        ),
+    }
+}
+
+fn gen_input(r: &mut Rng, tier: &str) -> Input {
+    let big = tier == "thorough";
+    let dims = gen_dims(r, big);
+    let n: usize = dims.iter().product();
+    let (fam, w) = match r.below(20) {
+        0..=7 => {
+            let (name, ws) = gen_int_weights(r, n, true);
+            (format!("i64_{}", name), Weights::I64(ws))
+        }
+        8..=10 => {
+            // f64 holding integers (scale 0)
+            let (name, ws) = gen_int_weights(r, n, false);
+            let f = ws.iter().map(|w| *w as f64).collect();
+            let z = ws.iter().map(|w| *w as i128).collect();
+            (format!("f64int_{}", name), Weights::F64 { f, z, k: 0, exact: true })
+        }
+        11..=16 => {
+            let (name, z, k) = gen_dyadic(r, n);
+            let scale = 2f64.powi(-(k as i32));
+            let f: Vec<f64> = z.iter().map(|x| *x as f64 * scale).collect();
+            debug_assert!(z.iter().sum::<i128>() < (1i128 << 53));
+            (format!("f64_{}", name), Weights::F64 { f, z, k, exact: true })
+        }
+        _ => {
+            let (name, f) = gen_arbitrary(r, n);
+            let (z, k) = decompose(&f);
+            (format!("f64_{}", name), Weights::F64 { f, z, k, exact: false })
         }
     };
     let k = match r.below(10) {
@@ -116,8 +299,7 @@ fn gen_input(r: &mut Rng, tier: &str) -> Input {
         1 => 6,
         _ => r.range(0, 6) as usize,
     };
-    let fw = name != "giant_i64" && r.chance(1, 3);
-    Input { fam: name.to_string(), dims, ws, k, fw }
+    Input { fam, dims, w, k }
 }
 
 fn nz(x: usize) -> NonZeroUsize {
@@ -129,17 +311,22 @@ fn run_impl(inp: &Input, threads: usize) -> Guarded<Vec<usize>> {
     guarded(threads, Duration::from_secs(10), move || {
         let n: usize = inp.dims.iter().product();
         let mut p = vec![usize::MAX; n];
-        if inp.fw {
-            let ws: Vec<f64> = inp.ws.iter().map(|w| *w as f64).collect();
-            if inp.dims.len() == 2 {
-                coupe::Grid::new_2d(nz(inp.dims[0]), nz(inp.dims[1])).rcb(&mut p, &ws, inp.k);
-            } else {
-                coupe::Grid::new_3d(nz(inp.dims[0]), nz(inp.dims[1]), nz(inp.dims[2])).rcb(&mut p, &ws, inp.k);
+        let d = &inp.dims;
+        match &inp.w {
+            Weights::F64 { f, .. } => {
+                if d.len() == 2 {
+                    coupe::Grid::new_2d(nz(d[0]), nz(d[1])).rcb(&mut p, f, inp.k);
+                } else {
+                    coupe::Grid::new_3d(nz(d[0]), nz(d[1]), nz(d[2])).rcb(&mut p, f, inp.k);
+                }
             }
-        } else if inp.dims.len() == 2 {
-            coupe::Grid::new_2d(nz(inp.dims[0]), nz(inp.dims[1])).rcb(&mut p, &inp.ws, inp.k);
-        } else {
-            coupe::Grid::new_3d(nz(inp.dims[0]), nz(inp.dims[1]), nz(inp.dims[2])).rcb(&mut p, &inp.ws, inp.k);
+            Weights::I64(ws) => {
+                if d.len() == 2 {
+                    coupe::Grid::new_2d(nz(d[0]), nz(d[1])).rcb(&mut p, ws, inp.k);
+                } else {
+                    coupe::Grid::new_3d(nz(d[0]), nz(d[1]), nz(d[2])).rcb(&mut p, ws, inp.k);
+                }
+            }
         }
         p
     })
@@ -151,13 +338,16 @@ fn main() {
     let mut rng = Rng::new(a.seed);
     let mut w = CaseWriter::new(
         &a.out,
-        "From Coupe Require Import Lib.Prelude Lib.Report Run.RunC10.",
+        "From Coupe Require Import Lib.Prelude Lib.Report Model.GridRcb Run.RunC10.",
         "case10",
         "run10",
         150,
     );
     let mut hangs = 0usize;
     let mut panics = 0usize;
+    let mut n_i64 = 0usize;
+    let mut n_f64_exact = 0usize;
+    let mut n_f64_arb = 0usize;
     let pools: &[usize] = if a.tier == "thorough" { &POOLS_THOROUGH } else { &POOLS_QUICK };
     let mut by_pool = [0usize; 17];
     let mut cur: Option<Input> = None;
@@ -189,34 +379,64 @@ fn main() {
                 ("IHang".to_string(), "{\"hang\":true}".to_string())
             }
         };
+        let (zs, wty_coq, wty_json, exact): (Vec<i128>, String, String, bool) = match &inp.w {
+            Weights::I64(ws) => {
+                n_i64 += 1;
+                (ws.iter().map(|x| *x as i128).collect(), "I64".into(), "\"weight_type\":\"i64\"".into(), true)
+            }
+            Weights::F64 { f, z, k, exact } => {
+                if *exact {
+                    n_f64_exact += 1
+                } else {
+                    n_f64_arb += 1
+                }
+                let bits: Vec<String> = f.iter().map(|x| x.to_bits().to_string()).collect();
+                (
+                    z.clone(),
+                    format!("(F64 {})", k),
+                    format!(
+                        "\"weight_type\":\"f64\",\"scale_log2\":{},\"sums_exact\":{},\"weights_f64_bits\":[{}]",
+                        k,
+                        exact,
+                        bits.join(",")
+                    ),
+                    *exact,
+                )
+            }
+        };
         let coq = format!(
-            "mk10 {} {} {} {} {} {}",
+            "mk10 {} {} {} {} {} {} {}",
             coq_natlist(inp.dims.iter().cloned()),
-            coq_zlist(inp.ws.iter().map(|x| *x as i128)),
+            coq_zlist(zs.iter().cloned()),
             inp.k,
             threads,
-            coq_bool(inp.fw),
+            wty_coq,
+            coq_bool(exact),
             coq_impl
         );
+        let zj: Vec<String> = zs.iter().map(|x| x.to_string()).collect();
         let json = format!(
-            "{{\"dims\":{},\"weights\":{},\"weight_type\":\"{}\",\"iter_count\":{},\"threads\":{},\"impl\":{}}}",
+            "{{\"dims\":{},\"weights\":[{}],{},\"iter_count\":{},\"threads\":{},\"impl\":{}}}",
             json_usizes(&inp.dims),
-            json_i64s(&inp.ws),
-            if inp.fw { "f64" } else { "i64" },
+            zj.join(","),
+            wty_json,
             inp.k,
             threads,
             json_impl
         );
-        let key = format!("{:?}|{:?}|{}|{}|{}", inp.dims, inp.ws, inp.fw, inp.k, threads);
+        let key = format!("{:?}|{:?}|{}|{}|{}", inp.dims, zs, wty_coq, inp.k, threads);
         let n: usize = inp.dims.iter().product();
-        let nontrivial = n >= 4 && inp.k >= 1 && inp.ws.iter().any(|w| *w != 0);
+        let nontrivial = n >= 4 && inp.k >= 1 && zs.iter().any(|w| *w != 0);
         let fam = format!("{}d_{}", inp.dims.len(), inp.fam);
         w.push(coq, json, &key, nontrivial, &fam);
         if hangs > 3 {
             break;
         }
     }
-    let mut extra = format!("\"hangs\":{},\"panics\":{}", hangs, panics);
+    let mut extra = format!(
+        "\"hangs\":{},\"panics\":{},\"cases_i64\":{},\"cases_f64_exact_dyadic\":{},\"cases_f64_arbitrary_checker_only\":{}",
+        hangs, panics, n_i64, n_f64_exact, n_f64_arb
+    );
     for (t, n) in by_pool.iter().enumerate() {
         if *n > 0 {
             extra.push_str(&format!(",\"pool_{}\":{}", t, n));
